@@ -27,8 +27,14 @@ theorem const_units_resolve : constUnitsOk = true := by decide +kernel
 def C15_values_full : Prop := valuesInClass [] = true
 
 /-- every row of `physical_constants` (outside the exclusion list) has a reference value, the
-    reference dimension, and lies within the tolerance class of the reference value -/
+    reference dimension, and lies within the tolerance stated for that row
+    (`Ref.C15.rows`: 2⁻⁴⁵ for c and gₙ, 2·10⁻⁹ μ₀ ε₀, 2.5·10⁻⁸ e, 10⁻⁷ N_A σ_T, 2.5·10⁻⁷ mₑ h ħ,
+    5·10⁻⁷ R_∞, 10⁻⁶ m_p k_B σ a q_pl, 5·10⁻⁵ Planck units, 7·10⁻⁵ m_H, 10⁻⁴ G M_sun, 5·10⁻⁴ planets T_cmb) -/
 theorem values_in_class_partial : valuesInClass exclValue = true := by decide +kernel
+
+/-- the constants fixed exactly by the 2019 SI (`h`, `qp`, `kb`) carry, digit for digit (2⁻⁴⁵), the
+    recommended value of CODATA 2010, CODATA 2014 or the exact SI value -/
+theorem si2019_constants_follow_an_edition : editionsOk = true := by decide +kernel
 
 theorem value_exclusions_fail : exclValue.all (fun k => !valueOkByName k) = true := by decide +kernel
 
